@@ -68,6 +68,7 @@ pub mod proofs {
     /// numbers that must be refused by the documented panics: forbidden,
     /// negative, beyond the table.
     #[kani::proof]
+    #[kani::stub(core::fmt::write, crate::common::no_fmt_write)]
     #[kani::unwind(6)]
     pub fn c12_panicking_inputs_refused_cleanly() {
         let (s, h) = new_signals();
@@ -87,6 +88,7 @@ pub mod proofs {
 
     /// a panic while the lock was held has poisoned it: the instance must stay usable
     #[kani::proof]
+    #[kani::stub(core::fmt::write, crate::common::no_fmt_write)]
     #[kani::unwind(6)]
     pub fn c12_survives_poisoned_lock() {
         let (s, h) = new_signals();
@@ -101,6 +103,7 @@ pub mod proofs {
     /// dropping an instance whose lock is poisoned must not panic (a panic in
     /// drop during unwinding aborts the process) and must still unregister
     #[kani::proof]
+    #[kani::stub(core::fmt::write, crate::common::no_fmt_write)]
     #[kani::unwind(6)]
     pub fn c12_drop_with_poisoned_lock() {
         unsafe { ARCS::real_drop = true };
@@ -115,6 +118,7 @@ pub mod proofs {
     /// kernel-rejected number: Err, nothing changes, retry behaves the same,
     /// valid additions and re-additions work - SignalOnly
     #[kani::proof]
+    #[kani::stub(core::fmt::write, crate::common::no_fmt_write)]
     #[kani::unwind(6)]
     pub fn c12_err_path_signal_only() {
         let (s, h) = new_signals();
@@ -146,6 +150,7 @@ pub mod proofs {
 
     /// the same with the info-carrying exfiltrator (per-signal slot initialised lazily)
     #[kani::proof]
+    #[kani::stub(core::fmt::write, crate::common::no_fmt_write)]
     #[kani::unwind(6)]
     pub fn c12_err_path_raw_siginfo() {
         reg::init_globals();
@@ -170,6 +175,7 @@ pub mod proofs {
 
     /// drop: every registration the instance made, and only those, is removed; both pipe ends closed once
     #[kani::proof]
+    #[kani::stub(core::fmt::write, crate::common::no_fmt_write)]
     #[kani::unwind(6)]
     pub fn c12_drop_cleans_up() {
         unsafe { ARCS::real_drop = true };
@@ -196,6 +202,7 @@ pub mod proofs {
 
     /// backend level: with_pipe fails on its second signal: the first one must not stay registered
     #[kani::proof]
+    #[kani::stub(core::fmt::write, crate::common::no_fmt_write)]
     #[kani::unwind(6)]
     pub fn c12_failed_with_pipe_leaves_nothing() {
         reg::init_globals();
@@ -211,6 +218,7 @@ pub mod proofs {
 
     /// a constructor that fails leaves nothing registered and closes its pipe
     #[kani::proof]
+    #[kani::stub(core::fmt::write, crate::common::no_fmt_write)]
     #[kani::unwind(6)]
     pub fn c12_failed_constructor_leaves_nothing() {
         unsafe { ARCS::real_drop = true };
